@@ -1124,7 +1124,14 @@ def iter_timestamped_records(record: Record) -> Iterator[Record]:
     record_name = record._desc.name
     original_record = record
     for field in dt_fields:
-        ts_record = TimestampRecord(getattr(original_record, field.name), field.name)
+        # the timestamp record goes first when extending, so it has to carry the metadata of the record it is made from
+        ts_record = TimestampRecord(
+            getattr(original_record, field.name),
+            field.name,
+            _source=original_record._source,
+            _classification=original_record._classification,
+            _generated=original_record._generated,
+        )
         # we extend ``ts_record`` with original ``record`` so TSRecord info goes first.
         record = extend_record(ts_record, [record], name=record_name)
         yield record
